@@ -5,6 +5,7 @@ CONSTANTS
   Esc = "escape"
   Header = "first"
   Merge = "grid"
+  Sep = "each"
   MaxSpecial = 2
   FullCells = 4
 INVARIANTS TypeOK RoundTrip HeadingLevelOK
